@@ -65,6 +65,12 @@ BodyVals ==
   \o [k \in 1..6 |-> [t |-> "HelloVerifyRequest", ver |-> <<65279, 65277>>[(k % 2) + 1], cookie |-> Cookies[(k % 3) + 1]]]
   \o [k \in 1..9 |-> [t |-> "ServerHello", ver |-> <<65277, 65279, 771>>[(k % 3) + 1], random |-> R32, sid |-> Sids[(k % 3) + 1],
                       cipher |-> 49199, comp |-> 0, ext |-> Exts[((k - 1) \div 3) + 1]]]
+  (* the version field is a number, registered or not; the extension block does not depend on it *)
+  \o [k \in 1..18 |-> [t |-> "ServerHello", ver |-> <<768, 769, 65276, 256, 65535, 0>>[((k - 1) % 6) + 1], random |-> R32, sid |-> Sids[(k % 3) + 1],
+                       cipher |-> 47, comp |-> 0, ext |-> Exts[((k - 1) \div 6) + 1]]]
+  \o [k \in 1..12 |-> [t |-> "DClientHello", ver |-> <<768, 769, 65276, 256, 65535, 0>>[((k - 1) % 6) + 1], random |-> R32, sid |-> Sids[(k % 3) + 1],
+                       cookie |-> Cookies[(k % 3) + 1], ciphers |-> <<47>>, comp |-> <<0>>, ext |-> Exts[((k - 1) \div 6) + 2]]]
+  \o [k \in 1..5 |-> [t |-> "HelloVerifyRequest", ver |-> <<768, 65276, 256, 65535, 0>>[k], cookie |-> Cookies[(k % 3) + 1]]]
   \o << [t |-> "Certificate", chain |-> <<>>], [t |-> "Certificate", chain |-> << <<48, 1>>, <<>> >>],
         [t |-> "ServerDone", data |-> <<>>], [t |-> "ServerDone", data |-> <<1, 2>>],
         [t |-> "ClientKeyExchange", kind |-> "Unknown", data |-> <<>>], [t |-> "ClientKeyExchange", kind |-> "Unknown", data |-> Fill(1, 66)] >>
@@ -78,6 +84,17 @@ BodyCases ==
         rec == EncDtlsRecord(22, 65277, 0, <<0, 0, j>>, msg) IN
     << Mk("body", HsFn, NoArgs, <<Lit(msg \o <<22>>)>>, <<j>>, Len(msg), Len(msg) + 1),
        Mk("bodyrec", RecFn, NoArgs, <<Lit(rec)>>, <<j>>, Len(rec), Len(rec)) >>])
+(* a handshake message is bounded by its own u24 length, not by the record cap: whole messages above 16640 bytes, called directly *)
+BigBodies == << [t |-> "ClientKeyExchange", kind |-> "Unknown", data |-> Fill(1, 16629)],
+                [t |-> "ClientKeyExchange", kind |-> "Unknown", data |-> Fill(2, 20000)],
+                [t |-> "ServerDone", data |-> Fill(3, 70000)],
+                [t |-> "Certificate", chain |-> [j \in 1..3 |-> Fill(j, 9000)]] >>
+BigBodyCases ==
+  [j \in 1..Len(BigBodies) |->
+    LET bb == EncDtlsBody(BigBodies[j])  msg == EncDtlsHs(MtOf(BigBodies[j]), Len(bb), j, 0, Len(bb), bb) IN
+    Mk("bigbody", HsFn, NoArgs, <<Lit(msg \o <<22>>)>>, <<j>>, Len(msg), Len(msg) + 1)]
+  \o << Mk("bigfrag", HsFn, NoArgs, <<Lit(EncDtlsHs(11, 100000, 3, 50, 20000, Fill(4, 20000)) \o <<1>>)>>,
+            [mt |-> 11, len |-> 100000, mseq |-> 3, off |-> 50, flen |-> 20000], 20012, 20013) >>
 (* unsupported message types, unfragmented: no value *)
 UnsupportedCases ==
   [q \in 1..8 |-> Mk("unsupported", RecFn, NoArgs,
@@ -100,7 +117,7 @@ WithHdrCases ==
     Mk("withhdr", "parse_dtls_record_with_header", [NoArgs EXCEPT !.ct = ct, !.ver = 65277, !.len = Len(Pay(ct)[1])],
        <<Lit(Pay(ct)[1])>>, <<>>, 0, 0)]
 
-ASSUME TLCSet(1, FrameCases \o HeaderCases \o CapCases \o FragCases \o BodyCases \o UnsupportedCases \o Dgram \o WithHdrCases)
+ASSUME TLCSet(1, FrameCases \o HeaderCases \o CapCases \o FragCases \o BodyCases \o BigBodyCases \o UnsupportedCases \o Dgram \o WithHdrCases)
 Cases == TLCGet(1)
 N == Len(Cases)
 
@@ -143,6 +160,10 @@ BodiesRoundTrip ==
   LET c == Cases[i] IN
   /\ c.kind = "body" => (cres.k = "ok" /\ cres.v.body = Bodies[c.want[1]] /\ ~cres.v.frag /\ cres.p = c.total)
   /\ c.kind = "bodyrec" => (cres.k = "ok" /\ cres.v.msgs[1].body = Bodies[c.want[1]] /\ cres.p = c.total)
+BigMessages ==
+  LET c == Cases[i] IN
+  /\ c.kind = "bigbody" => (cres.k = "ok" /\ cres.v.body = BigBodies[c.want[1]] /\ ~cres.v.frag /\ cres.p = c.total)
+  /\ c.kind = "bigfrag" => (cres.k = "ok" /\ cres.v.frag /\ cres.p = c.total /\ cres.v.body = [t |-> "Fragment", data |-> Fill(4, 20000)])
 Unsupported == Cases[i].kind \in {"unsupported", "dgramfail"} => res.k # "ok"
 DatagramRecordByRecord ==
   LET c == Cases[i] IN
